@@ -3,7 +3,7 @@
    Print Assumptions.  Engine-level theorems (error path through task/workflow) are added by the
    whole-engine model separately. *)
 From Coq Require Import List ZArith Bool.
-Require Import Mistral.Gen.States Mistral.Model.Beat Mistral.Proofs.BeatProofs.
+Require Import Mistral.Gen.States Mistral.Gen.IntegrityShape Mistral.Model.Beat Mistral.Proofs.BeatProofs.
 Import ListNotations.
 Open Scope Z_scope.
 
@@ -204,6 +204,53 @@ Theorem C20_integrity_batch_window : forall delay batch now wf tasks i,
 Proof. exact integrity_window. Qed.
 Print Assumptions C20_integrity_batch_window.
 
+(* ---- the chain of periodic checks ---- *)
+
+(* the only early returns in front of the re-arming call of _check_and_fix_integrity (extracted from the source on
+   every run, fail closed): a check of an existing unfinished workflow with a non-negative delay always re-arms *)
+Theorem C20_rearm_unconditional : forall delay wf,
+  rearms delay wf = true <-> 0 <= delay /\ exists ws, wf = Some ws /\ is_completed ws = false.
+Proof. exact rearms_iff. Qed.
+Print Assumptions C20_rearm_unconditional.
+
+(* Any sequence of clock ticks, checks being run by the scheduler, arbitrary changes of the task rows, pause /
+   resume / completion and reruns, from the state start_workflow creates (or any state with a check pending):
+   while the workflow is unfinished and the delay is non-negative an integrity check is pending, due within one
+   period - the chain never ends before the workflow does. *)
+Theorem C20_chain_never_ends : forall delay batch evs c,
+  Alive delay c -> Alive delay (crun delay batch evs c).
+Proof. exact alive_run. Qed.
+Print Assumptions C20_chain_never_ends.
+
+Theorem C20_chain_pending : forall delay batch evs c,
+  Alive delay c -> 0 <= delay -> live (ch_wf (crun delay batch evs c)) = true ->
+  ch_jobs (crun delay batch evs c) <> [].
+Proof. exact chain_alive. Qed.
+Print Assumptions C20_chain_pending.
+
+Theorem C20_chain_start : forall delay ws t0,
+  Alive delay (chain_start delay ws t0) /\ Future (chain_start delay ws t0).
+Proof. exact chain_start_ok. Qed.
+Print Assumptions C20_chain_start.
+
+(* a pending check is not skipped: when the clock is past its due time it has run *)
+Theorem C20_check_not_skipped : forall delay batch evs c j,
+  Future c -> In j (ch_jobs c) -> j < ch_clock (crun delay batch evs c) ->
+  exists ids, In (j, ids) (ch_fired (crun delay batch evs c)).
+Proof. exact check_not_skipped. Qed.
+Print Assumptions C20_check_not_skipped.
+
+(* Liveness: a task RUNNING inside the batch window whose executions all finished by T0 (and which is not touched
+   after T0), in a workflow that stays unfinished: whatever else happens, before the clock passes
+   max(now, T0 + delay) + max(period, delay) some check has re-triggered its completion handling. *)
+Theorem C20_stuck_task_repaired : forall delay batch T0 t evs c,
+  0 <= delay -> live (ch_wf c) = true -> stuck_in batch T0 t (ch_tasks c) ->
+  Alive delay c -> Future c -> Forall (admissible batch T0 t) evs ->
+  Z.max (ch_clock c) (T0 + delay) + chain_period delay < ch_clock (crun delay batch evs c) ->
+  Done t (crun delay batch evs c).
+Proof. exact stuck_task_repaired. Qed.
+Print Assumptions C20_stuck_task_repaired.
+
 (* non-vacuity: concrete states meeting the hypotheses *)
 Definition ex_cfg := mkCfg 20 15 3600 10.
 Definition ex_ops :=
@@ -219,5 +266,14 @@ Example C20_nonvacuous :
      mkT 2 RUNNING 0 (Some 21) [mkC SUCCESS 0 (Some 10); mkC ERROR 0 (Some 21)];
      mkT 3 RUNNING 0 None [mkC SUCCESS 0 (Some 5); mkC RUNNING 0 None];
      mkT 4 SUCCESS 0 (Some 1) [mkC SUCCESS 0 (Some 1)]] = (true, [1%nat]) /\
-  Inv (mkSt [] 0 []).
-Proof. split; [vm_compute; reflexivity|]. split; [vm_compute; reflexivity|]. apply inv_empty. Qed.
+  Inv (mkSt [] 0 []) /\
+  (* a check at 10 finds only a DELAYED task and still re-arms; the task that gets stuck at 60 is repaired at 130 *)
+  chain_view (crun 20 5 [CTasks [mkT 1 RUNNING_DELAYED 0 (Some 0) []]; CTick 10; CFire 0;
+                         CTasks [mkT 1 SUCCESS 0 (Some 50) [mkC SUCCESS 50 (Some 55)];
+                                 mkT 2 RUNNING 55 (Some 55) [mkC SUCCESS 55 (Some 60)]];
+                         CTick 120; CFire 0] (chain_start 20 RUNNING 0))
+    = ([250], [10; 0; 130; 1; 2]).
+Proof.
+  split; [vm_compute; reflexivity|]. split; [vm_compute; reflexivity|]. split; [apply inv_empty|].
+  vm_compute; reflexivity.
+Qed.
